@@ -69,6 +69,11 @@ CLAIMED = {
    note="2 atoms, lmax 1, nalpha 2; NOT covered in this round (listed in evidence): spline projection, l+1 interpolation terms, orbital<->grid interpolation, SDMX contractions; thread count is C10.",
    technique="symbolic execution of clang LLVM IR in hybrid memory mode (own interpreter) + z3 polynomial identity; translation validation against the compiled library",
    design="4/C05"),
+ "C06": dict(
+   text="The decidable bookkeeping pieces of rotational covariance, on the real code: clang's IR of sph_harm.c is executed on a symbolic unit vector and z3 decides (i) the documented l=1 direction convention ylm[[3,1,2]] sqrt(4pi/3) = (x,y,z), (ii) sum_m Y_lm^2 = (2l+1)/4pi per shell (l <= 2, 3 thorough), (iii) for octahedral operations R: Y_l(Rr) is a fixed signed permutation of Y_l(r) for l <= 1 and the l = 2 shell's Gram matrix is invariant, (iv) recursive_sph_harm_deriv returns the same values and exactly the tangential gradient of the polynomials the value routine evaluates; and the NLDF plan's l=1 contraction is invariant under a symbolic orthogonal matrix (Cayley parametrisation, proper and improper).",
+   note="NOT claimed (not applicable): energy / XC-matrix invariance end to end, atom-permutation invariance of generators, arbitrary rotations to quadrature accuracy, translation covariance of the spline routines; identities that mix the C source's decimal constants with pi are decided within 1e-12; unit-sphere constraint used as a rewrite rule z^2 = 1 - x^2 - y^2.",
+   technique="symbolic execution of clang LLVM IR (own interpreter) + polynomial normal form with equational rewriting + z3 (monomial-box abstraction for tolerance bounds)",
+   design="4/C06"),
 }
 
 NOT_YET = {}
